@@ -291,7 +291,14 @@ func runC25(c *fw.Ctx, idx int) {
 
 	var buf bytes.Buffer
 	enc := ce.NewCTEEncoder(cfg)
-	enc.PrepareToEncode(&buf)
+	if c.Rng.Intn(2) == 1 {
+		// a destination that is only an io.Writer: strings then go through the encoder's own adapter and scratch buffer
+		enc.PrepareToEncode(c16PlainWriter{&buf})
+		c.Inc("destination.plain-writer")
+	} else {
+		enc.PrepareToEncode(&buf)
+		c.Inc("destination.bytes-buffer")
+	}
 	if fi, p := replayAuto(enc, in); fi >= 0 {
 		detail["event"], detail["panic"] = fi, ev.PanicString(p)
 		c.Fail("encode-panic:"+region, detail)
